@@ -11,15 +11,10 @@ import TonVerif.Drv.Cell
 import TonVerif.Model.BocEmit
 import TonVerif.Spec.Boc
 import TonVerif.Model.BocForms
+import TonVerif.Drv.PCell
 
 namespace TonVerif.Drv
 open TonVerif TonVerif.Model
-
-/-- evaluate a DAG into constructed-cell objects (shared), each node once -/
-def evalPDag (nodes : List (Int × Bits × List Nat)) : Array (Option PCell) :=
-  nodes.foldl (fun acc (kind, bits, refs) =>
-    let kids : Option (List PCell) := refs.mapM (fun i => (acc[i]?).join)
-    acc.push (kids.bind (fun ks => (construct sha kind bits (ks.map PCell.info)).map (fun i => PCell.mk i ks)))) #[]
 
 def parseOpts (s : String) (flags : Nat) : Option Opts :=
   match s.toList with
